@@ -1,25 +1,38 @@
 #!/usr/bin/env python3
-# Applies every seeded change in turn to /repo, runs the property's quick check, reverts, and records which
-# obligations reported it. Output: seeded/RESULTS.md and seeded/RESULTS.json. Never leaves /repo modified.
-import json,os,subprocess,re,sys
-rows=[]
-for sid in sorted(os.listdir('/verif/seeded')):
+# Applies every seeded change in turn to a SCRATCH COPY of /repo's working tree, runs the property's quick check on the
+# copy, and records which obligations reported it. Output: seeded/RESULTS.md and seeded/RESULTS.json. /repo is never
+# touched; three seeds run side by side; every copy is removed when its run is over. The checker binary, the contract
+# mirror, the bounded checks, the findings file and /repo's tree are snapshotted once at the start, so /verif and /repo may
+# be worked on while the table is being made (the table then describes the snapshot).
+import json,os,subprocess,re,sys,tempfile,shutil
+from concurrent.futures import ThreadPoolExecutor
+SNAP=tempfile.mkdtemp(prefix='lhv-seedsnap.',dir='/tmp')
+os.makedirs(SNAP+'/repo'); os.makedirs(SNAP+'/verif/bin')
+subprocess.run(['rsync','-a','--exclude','.git','/repo/',SNAP+'/repo/'],check=True)
+shutil.copy('/verif/bin/lhv',SNAP+'/verif/bin/lhv'); shutil.copy('/verif/known_findings.json',SNAP+'/verif'); shutil.copy('/verif/properties.jsonl',SNAP+'/verif')
+shutil.copytree('/verif/contracts',SNAP+'/verif/contracts'); shutil.copytree('/verif/bounded',SNAP+'/verif/bounded')
+def one(sid):
     d='/verif/seeded/'+sid
-    if sid.startswith('_') or not os.path.exists(d+'/patch.diff'): continue
     prop=json.load(open(d+'/meta.json'))['property']
-    if subprocess.run(['git','-C','/repo','apply',d+'/patch.diff']).returncode!=0:
-        rows.append((sid,prop,'patch does not apply',[])); continue
-    import tempfile,shutil
     T=tempfile.mkdtemp(prefix='lhv-seedtab.',dir='/tmp')
-    shutil.copy('/verif/known_findings.json',T); shutil.copy('/verif/properties.jsonl',T); shutil.copytree('/verif/contracts',T+'/contracts'); shutil.copytree('/verif/bounded',T+'/bounded')
     try:
-        out=subprocess.run(['./bin/lhv','check','--verif',T,'--property',prop],cwd='/verif',capture_output=True,text=True).stdout
+        os.makedirs(T+'/repo'); os.makedirs(T+'/verif')
+        subprocess.run(['rsync','-a',SNAP+'/repo/',T+'/repo/'],check=True)
+        shutil.copy(SNAP+'/verif/known_findings.json',T+'/verif'); shutil.copy(SNAP+'/verif/properties.jsonl',T+'/verif')
+        shutil.copytree(SNAP+'/verif/contracts',T+'/verif/contracts'); shutil.copytree(SNAP+'/verif/bounded',T+'/verif/bounded')
+        if subprocess.run(['patch','-s','-p1','-i',d+'/patch.diff'],cwd=T+'/repo',capture_output=True).returncode!=0:
+            return (sid,prop,'patch does not apply',[])
+        out=subprocess.run([SNAP+'/verif/bin/lhv','check','--repo',T+'/repo','--verif',T+'/verif','--property',prop],cwd=SNAP+'/verif',capture_output=True,text=True).stdout
     finally:
-        subprocess.run(['git','-C','/repo','apply','-R',d+'/patch.diff'])
         shutil.rmtree(T,ignore_errors=True)
     obls=re.findall(r'obligation=(\S+)',out)
     m=re.search(r'SUMMARY.*',out)
-    rows.append((sid,prop,m.group(0) if m else 'no summary',obls))
+    print(sid,'caught' if obls else 'NOT CAUGHT',flush=True)
+    return (sid,prop,m.group(0) if m else 'no summary',obls)
+sids=[s for s in sorted(os.listdir('/verif/seeded')) if not s.startswith('_') and os.path.exists('/verif/seeded/'+s+'/patch.diff')]
+with ThreadPoolExecutor(max_workers=3) as ex:
+    rows=list(ex.map(one,sids))
+shutil.rmtree(SNAP,ignore_errors=True)
 json.dump([{'seed':a,'property':b,'summary':c,'failed_obligations':d} for a,b,c,d in rows],open('/verif/seeded/RESULTS.json','w'),indent=1)
 with open('/verif/seeded/RESULTS.md','w') as f:
     f.write('| seeded change | property | caught | first failing obligation |\n|---|---|---|---|\n')
